@@ -70,6 +70,7 @@ mut("m08d_diff_equal_sum", "C08", DEV, ".set((side1 + side2 + sum * 2.0) / 3.0)?
 mut("m08e_diff_side1_plus", "C08", DEV, "self.side1.borrow_mut().set(sum - side2)?;", "self.side1.borrow_mut().set(sum + side2)?;")
 mut("m08f_invert_older_time", "C08", DEV, "                    let time = if datum1.time >= datum2.time {\n                        datum1.time\n                    } else {\n                        datum2.time\n                    };\n                    //average", "                    let time = if datum1.time <= datum2.time {\n                        datum1.time\n                    } else {\n                        datum2.time\n                    };\n                    //average")
 mut("m08g_teeth_sign", "C08", DEV, "if N % 2 == 0 { -1.0 } else { 1.0 }", "if N % 2 == 0 { 1.0 } else { -1.0 }")
+mut("m08x_gear_near_consistent_fast_path", "C08", DEV, "                    //https://www.desmos.com/3d/gvwbqszr5e\n                    let r_squared_plus_1 = self.ratio * self.ratio + 1.0;", "                    let imp = state1 * self.ratio;\n                    let close = |a: f32, b: f32| (a - b).abs() <= 1e-4 * a.abs().max(b.abs());\n                    if close(imp.position, state2.position) && close(imp.velocity, state2.velocity) && close(imp.acceleration, state2.acceleration) {\n                        self.term1.borrow_mut().set(Datum::new(time, state1))?;\n                        self.term2.borrow_mut().set(Datum::new(time, state2))?;\n                        return Ok(());\n                    }\n                    //https://www.desmos.com/3d/gvwbqszr5e\n                    let r_squared_plus_1 = self.ratio * self.ratio + 1.0;", note="readings that mesh to 1e-4 are left unprojected")
 # ---- C09
 mut("m09a_disconnect_one_end", "C09", LIB, "                other.other = None;\n                self.other = None;", "                let _ = &mut other;\n                self.other = None;")
 mut("m09b_connect_no_disconnect_2", "C09", LIB, "    term1.borrow_mut().disconnect();\n    term2.borrow_mut().disconnect();", "    term1.borrow_mut().disconnect();")
